@@ -12,7 +12,8 @@ reproducibility of the event limit).
 import numpy as np
 from hypothesis import strategies as st
 
-from .. import boot  # noqa: F401
+from .. import boot
+from ..common import meta
 from ..lib_pip import classify
 
 import dclab
@@ -113,7 +114,11 @@ def st_spec(draw):
             pre.append(["range", feats[0], draw(BOUND), draw(BOUND), True])
         pos = draw(st.integers(0, len(ops)))
         ops = ops[:pos] + pre + [["apply", None]] + ops[pos:]
-    return {"n": n, "data": data, "ops": ops}
+    return {"n": n, "data": data, "ops": ops,
+            # the same data behind the feature wrappers of the other dataset kinds
+            # (HDF5 scalar features and hierarchy-child features have their own
+            # min/max/indexing code)
+            "backend": draw(st.sampled_from(["dict", "dict", "hdf5", "child"]))}
 
 
 def strategy(tier):
@@ -163,7 +168,36 @@ def run_case(spec, rec):
     n = spec["n"]
     data = {f: np.array(v, dtype=float) for f, v in spec["data"].items()}
     feats = sorted(data)
-    ds = dclab.new_dataset({f: data[f].copy() for f in feats})
+    backend = spec.get("backend", "dict")
+    rec.cls("backend:" + backend)
+    cdir = None
+    keep = []
+    try:
+        if backend == "hdf5":
+            cdir = boot.casedir()
+            with dclab.RTDCWriter(cdir / "c03.rtdc", mode="reset") as hw:
+                hw.store_metadata(meta())
+                for f in feats:
+                    hw.store_feature(f, data[f].copy())
+            ds = dclab.new_dataset(cdir / "c03.rtdc")
+        elif backend == "child":
+            keep.append(dclab.new_dataset({f: data[f].copy() for f in feats}))
+            ds = dclab.new_dataset(keep[0])
+        else:
+            ds = dclab.new_dataset({f: data[f].copy() for f in feats})
+        keep.append(ds)
+        _run_history(spec, rec, ds, data, feats, n)
+    finally:
+        for x in reversed(keep):
+            try:
+                x.__exit__(None, None, None)
+            except Exception:
+                pass
+        if cdir is not None:
+            boot.rmcase(cdir)
+
+
+def _run_history(spec, rec, ds, data, feats, n):
     # ---- model
     M = {"ranges": {}, "missing": None, "polys": [], "invalid": False,
          "enable": True, "limit": 0, "manual": np.ones(n, dtype=bool)}
